@@ -41,8 +41,8 @@ func (r *Rng) I64n(n int64) int64 {
 	}
 	return int64(r.U64() % uint64(n))
 }
-func (r *Rng) Bool() bool          { return r.U64()&1 == 1 }
-func (r *Rng) Chance(p int) bool   { return r.Intn(100) < p } // p percent
+func (r *Rng) Bool() bool              { return r.U64()&1 == 1 }
+func (r *Rng) Chance(p int) bool       { return r.Intn(100) < p } // p percent
 func (r *Rng) Pick(ss []string) string { return ss[r.Intn(len(ss))] }
 func (r *Rng) Perm(n int) []int {
 	p := make([]int, n)
